@@ -118,8 +118,9 @@ def rand_value(rng, sch, t, budget=None):
         if rng.random() < 0.4:
             return []
         inner = rand_value(rng, sch, t["t"])
-        if t["t"]["k"] == "opt" and inner == []:
-            return []       # Some(None) has no Python representation (None is the outer None)
+        if t["t"]["k"] in ("opt", "dyn") and inner == []:
+            return []       # Some(None) has no Python representation (None is the outer None); Some([]) has no JSON
+                            # representation in the generated C++ (an empty array decodes to JSON null)
         return [inner]
     if k == "struct":
         st = [x for x in sch["structs"] if x["name"] == t["name"]][0]
